@@ -339,6 +339,8 @@ func (o Float) Equal(right Object) bool {
 		return o == Float(v)
 	case Uint:
 		return o == Float(v)
+	case Char:
+		return o == Float(v)
 	case Bool:
 		if v {
 			return o == 1
